@@ -644,6 +644,9 @@ cannot parse duration string `%s'", argi->alt_inc_arg);
 				dt_make_sandwich(&lst, fst.d.typ, DT_HMS);
 			}
 			clo.ite->d = dt_make_ddur(DT_DURD, 1);
+		} else if (fst.typ == DT_SEXY && argi->nargs > 1U) {
+			/* epoch bounds, the documented default of 1d */
+			clo.ite->d = dt_make_ddur(DT_DURD, 1);
 		} else {
 			error("\
 don't know how to handle single argument case");
